@@ -129,6 +129,7 @@ func checkHashProjection(c *fw.Ctx) {
 		} else {
 			c.Check(sameSet(got, want), "3 hash-projection", construct, c.P.Pos(fn.Pos()), strings.Join(sortedSet(got), ","), "excluded members are "+strings.Join(sortedSet(got), ",")+": "+diffSets(got, want))
 		}
+		checkTopLevelOnly(c, "3 hash-projection", spec, fn, want)
 	}
 	// the writer hashes canonical JSON (the checker is handed canonical bytes by its callers: rule 2)
 	if fn := c.P.Func("addContentHashesToEvent"); fn != nil {
